@@ -147,9 +147,9 @@ def judge_session(b, ob, d, kind, arg, r):
                 if any(hits(t, st_in) for t in tg): continue
                 if E.tape_nopid({'stories': [st_in]}) != E.tape_nopid({'stories': [st_out]}):
                     msg = 'the story %s, whose text no edit of the batch targets, changed' % st_in.get('part', '?')
-                    ff, kn = classify(msg)
-                    if not kn and J.in_virtual({'din': din, 'edits': arg}, docrun.extract(b, False)): kn = ('D40', J.WHAT['D40'])      # the target was found in virtual text of that story first
-                    out.append((msg, kn)); break
+                    # (no D40 attribution here: since fixes D54 / D57 an occurrence lying in generated text is passed over and a range
+                    # over two stories is refused, so a story can only change through text of its own that an edit names)
+                    out.append(classify(msg)); break
         pa = [(p['ppr'], tuple(p['style'])) for p in A.paras(din)]; pb = [(p['ppr'], tuple(p['style'])) for p in A.paras(back)]
         if len(pa) == len(pb) and pa != pb:
             k = next(i for i in range(len(pa)) if pa[i] != pb[i])
